@@ -502,3 +502,18 @@ package reader
 //@   private model.TargetCollectionInfo.PChannel model.TargetCollectionInfo.VChannel model.TargetCollectionInfo.CollectionID cells(*model.TargetCollectionInfo) cells(*replicateChannelManager) util.ChannelMapping.* replicateChannelManager.channelMapping
 //@   ensures [the-collections-placement-is-left-as-the-downstream-reported-it] deref(targetInfo).PChannel == old(deref(targetInfo).PChannel) && deref(targetInfo).VChannel == old(deref(targetInfo).VChannel) && deref(targetInfo).CollectionID == old(deref(targetInfo).CollectionID)
 //@   loop 1 invariant deref(targetInfo) == old(deref(targetInfo)) && deref(targetInfo).PChannel == old(deref(targetInfo).PChannel) && deref(targetInfo).VChannel == old(deref(targetInfo).VChannel) && deref(targetInfo).CollectionID == old(deref(targetInfo).CollectionID) && deref(r) == old(deref(r)) && deref(r).channelMapping == old(deref(r).channelMapping) && shapeCM(deref(r).channelMapping) && balancedCM(deref(r).channelMapping)
+
+// ---- C16: a channel is offered to the waiting handlers only after a slot of its quota was reserved for the taker ------
+// forwardChannel$1 is the goroutine that offers a still free channel on forwardReplicateChannel.  It offers the channel
+// only if, while it held the manager's lock, the channel's counter was below the quota AND it has raised the counter by
+// one: the waiting handler that takes the offer assigns the channel without looking at the quota again.
+//@ ghost var offered seq[string]
+//@ changhost replicateChannelManager.forwardReplicateChannel offered
+//@ func (*replicateChannelManager).forwardChannel$1
+//@   props C16
+//@   requires deref(r) != nil && deref(r).channelMapping != nil && deref(r).channelForwardMap != nil
+//@   assumes shapeCM(deref(r).channelMapping)
+//@   private maps(string;int) cells(*replicateChannelManager) cells(string) replicateChannelManager.channelForwardMap replicateChannelManager.channelMapping util.ChannelMapping.* offered
+//@   ensures [only-the-given-channel-is-offered-and-at-most-once] len(offered) == old(len(offered)) || (len(offered) == old(len(offered)) + 1 && offered[old(len(offered))] == old(deref(channelName)))
+//@   ensures [an-offer-is-made-only-after-reserving-a-slot-below-the-quota] len(offered) > old(len(offered)) ==> reached(NewTicker) && after(AverageCnt, deref(r).channelForwardMap[deref(channelName)]) < after(AverageCnt, deref(r).channelMapping.averageCnt) && after(NewTicker, deref(r).channelForwardMap[deref(channelName)]) == wrapInt(after(AverageCnt, deref(r).channelForwardMap[deref(channelName)]) + 1)
+//@   loop 1 invariant len(offered) == old(len(offered)) && deref(r) == old(deref(r)) && deref(channelName) == old(deref(channelName))
